@@ -27,7 +27,11 @@ def detect_fixes(repo):
     fallthrough = bool(m and m.group(1))
     stale = bool(re.search(r"Rc\.Type\s*=\s*0", conn)) or bool(re.search(r"Rc\.Type\s*=\s*0", srv))
     close = "close(conn.done)" in conn
-    return {"FixFallthrough": fallthrough, "FixStale": stale, "FixClose": close}
+    i_enq = srv.find("conn.reqout <- req")
+    i_del = srv.find("delete(conn.reqs, req.Tc.Tag)")
+    order = 0 <= i_enq < i_del
+    chain = "flushnext" in srv
+    return {"FixFallthrough": fallthrough, "FixStale": stale, "FixClose": close, "FixOrder": order, "FixChain": chain}
 
 
 BASE = dict(NReq=2, Tags={1, 2}, Fids={1}, Kinds={"Stat", "Flush"}, FixFallthrough=False, FixStale=False,
@@ -46,7 +50,7 @@ def consts(ctx, **over):
 def harness_cfg(c, handshake=True, bystander=False):
     return {"NT": max(c["Tags"]), "NF": max(c["Fids"]), "HasFlushOp": c["HasFlushOp"],
             "InitFids": sorted(c["InitFids"]), "Maxpend": c["Maxpend"], "Dotu": True, "Handshake": handshake,
-            "Bystander": bystander}
+            "Bystander": bystander, "FixClose": bool(c.get("FixClose"))}
 
 
 def normalise_ext(src, dst):
@@ -133,12 +137,12 @@ def run_trace_validation(ctx, trace_path, c, name="Srv9PTrace"):
     return rejects, nlines
 
 
-def behaviours_tour(ctx, c, tag, sample_edges=None, max_paths=None, max_edges=600000):
+def behaviours_tour(ctx, c, tag, sample_edges=None, max_paths=None, max_edges=600000, known_size=None):
     """Exhaustive graph of config c, transition tour over it.  Returns (paths, covered, total, TLCResult)."""
     cfg = "Srv9P_%s_graph.cfg" % tag
     ctx.write_cfg(cfg, c, spec="Spec")
     # guard: a dumped graph costs ~1 KB per edge on disk; measure the model first
-    pre = ctx.tlc("Srv9P", cfg, timeout=900, name=cfg + ":size")
+    pre = known_size if known_size is not None else ctx.tlc("Srv9P", cfg, timeout=900, name=cfg + ":size")
     if not pre.ok or pre.generated > max_edges:
         ctx.inconclusive.append("state graph of %s too large for a transition tour (%d transitions)" % (tag, pre.generated))
         return [], 0, 0, pre
